@@ -149,6 +149,10 @@ func (p *Program) buildFuncUnit(fn *ssa.Function) (ur *UnitResult) {
 		v := g.freshVal(fv.Type(), fv.Name())
 		g.assume("true", g.typeInv(v))
 		g.assume("true", g.refFacts(st, v))
+		if v.K == KPtr && fn.Synthetic == "" {
+			// the address of a captured variable
+			g.assume("true", sNot(sEq(v.Term, bv64(0))))
+		}
 		f.vals[fv] = v
 	}
 	f.curReach, f.curState = "true", st
